@@ -122,6 +122,12 @@ RealStep ==
     /\ Judge(<< <<"SumOfRatesIsIntensity", Abs(SumSeq(E.q) - E.lam) <= E.slack /\ \A k \in 1..Len(E.q) : E.q[k] >= -1>> >>)
     /\ ln' = ln + 1 /\ UNCHANGED <<tid, fin>>
 
+\* infinite-variation copula chain (thin): row = <<100 h, i, j, adjustment, reference>> in units of 1e-5 of the larger;
+\* the code integrates with an absolute tolerance of 1e-3 before scaling: accepted within 1 %
+VarAdjStep ==
+    /\ More /\ E.e = "VarAdj"
+    /\ Judge(<< <<"VarianceRule", \A i \in 1..Len(E.rows) : Abs(E.rows[i][4] - E.rows[i][5]) <= 1000>> >>)
+    /\ ln' = ln + 1 /\ UNCHANGED <<tid, fin>>
 RaiseStep ==
     /\ More /\ E.e = "Raise"
     /\ PrintT(<<"REJECT", Id, ln, "Raise", H.kind>>)
@@ -131,6 +137,6 @@ Finish ==
     /\ IF bad = 0 THEN PrintT(<<"ACCEPT", Id>>) ELSE TRUE
     /\ fin' = TRUE /\ UNCHANGED <<tid, ln, bad>>
 
-TraceNext == RateStep \/ RateNdStep \/ BucketStep \/ DriftStep \/ DriftQStep \/ RealStep \/ RaiseStep \/ Finish
+TraceNext == RateStep \/ RateNdStep \/ BucketStep \/ DriftStep \/ DriftQStep \/ RealStep \/ VarAdjStep \/ RaiseStep \/ Finish
 TraceSpec == TraceInit /\ [][TraceNext]_tvars
 =============================================================================
